@@ -884,12 +884,16 @@ func (r *runningStep) executeSubWorkflows(input executeInput) ([]any, map[int]st
 			}
 
 			r.logger.Debugf("Executing item %d...", i)
-			// Ignore the output ID here because it can only be "success"
-			_, outputData, err := r.workflow.Execute(r.ctx, input)
+			outputID, outputData, err := r.workflow.Execute(r.ctx, input)
 			r.lock.Lock()
-			if err != nil {
+			switch {
+			case err != nil:
 				itemErrors[i] = err.Error()
-			} else {
+			case outputID != "success":
+				// The subworkflow may declare other outputs than "success". Their data does not fit the
+				// success schema the results are collected with, and the item did not succeed.
+				itemErrors[i] = fmt.Sprintf("subworkflow ended with output '%s' instead of 'success' (%v)", outputID, outputData)
+			default:
 				itemOutputs[i] = outputData
 			}
 			r.lock.Unlock()
